@@ -117,6 +117,16 @@ func registerIntrinsics(e *Engine) {
 		p.unwind = int(concInt(p, a[0], "SetUnwind"))
 		return nil
 	}
+	I[M+"Stop"] = func(p *Path, fn *ssa.Function, a []Value) Value {
+		msg := concStr(p, a[0], "Stop")
+		id := "no_deadlock"
+		if !strings.HasPrefix(msg, "deadlock") {
+			id = "stop"
+		}
+		p.note(msg)
+		p.Assert(id, FalseT)
+		return nil
+	}
 	I[M+"Concretize"] = func(p *Path, fn *ssa.Function, a []Value) Value {
 		t := a[0].(*Term)
 		return BVC(t.S.W, p.Concretize(t, "harness"))
@@ -259,6 +269,18 @@ func registerIntrinsics(e *Engine) {
 		}
 		return BVCi(64, -1)
 	}
+	lastIdxByte := func(p *Path, fn *ssa.Function, a []Value) Value {
+		bs := bytesOf(a[0])
+		c := a[1].(*Term)
+		for i := len(bs) - 1; i >= 0; i-- {
+			if p.Branch(Eq(bs[i], c)) {
+				return BVCi(64, int64(i))
+			}
+		}
+		return BVCi(64, -1)
+	}
+	I["internal/bytealg.LastIndexByteString"] = lastIdxByte
+	I["internal/bytealg.LastIndexByte"] = lastIdxByte
 	I["internal/bytealg.IndexByteString"] = idxByte
 	I["internal/bytealg.IndexByte"] = idxByte
 	cnt := func(p *Path, fn *ssa.Function, a []Value) Value {
